@@ -284,6 +284,8 @@ func Register(name, owner, email, refresh, retry, expire, ttl) (ok)
 // non-TLD names; nothing but the expiration changes; one Renew notification
 func Renew(name, years) (r)
   requires [Pre] store.has(nkey(name)) ==> ns(store, name).Name == name
+  cover [C10] years == 10 && len(split(name, ".")) == 1
+  cover [C10] years == 1 && len(split(name, ".")) == 2 && store.has(nkey(name)) && ns(store, name).Expiration == now + 283824000000
   ensures [C10] 1 <= years && years <= 10
   ensures [C10] old(store).has(nkey(name)) && now < old(ns(store, name)).Expiration
   ensures [C10] store.has(nkey(name)) && ns(store, name).Expiration == old(ns(store, name)).Expiration + years * 31536000000 && r == ns(store, name).Expiration
@@ -413,6 +415,8 @@ func GetRecords(name, typ) (r)
 
 // deleteRecords empties exactly one type (never SOA = 6) of one name and refreshes the SOA record of the token
 func DeleteRecords(name, typ)
+  cover [C12] typ == 16
+  cover [C12] typ == 5
   ensures [C12] typ != 6
   ensures [C12] forall k Bytes {store.opt(k)} :: prefix(rprefix(tokenOf(old(store), name), name, typ), k) && k != skey_(tokenOf(old(store), name)) ==> !store.has(k)
   ensures [C12] forall k Bytes {store.opt(k)} :: !prefix(rprefix(tokenOf(old(store), name), name, typ), k) && k != skey_(tokenOf(old(store), name)) ==> store.opt(k) == old(store).opt(k)
